@@ -124,6 +124,37 @@ func embedRego(position, code, helper string) string {
 		return head + "    propertyConstraints:\n      ex.p0:\n        nested:\n" + block("rego", 10)
 	case "atLeast":
 		return head + "    propertyConstraints:\n      ex.p0:\n        atLeast:\n          count: 1\n          validation:\n" + block("rego", 12)
+	case "and-second-rego":
+		// two native constraints on the same node in one conjunction; the first one is harmless
+		return head + "    and:\n      - rego: |\n          $result = true\n      - " + strings.TrimLeft(block("rego", 8), " ")
+	case "pc-rego-and-regoModule":
+		return head + "    propertyConstraints:\n      ex.p0:\n        rego: |\n          $result = true\n" + block("regoModule", 8)
+	case "or-many-rego":
+		// several native alternatives, the offending one in the middle, plus a conjunction of two declarative clauses
+		alt := "      - rego: |\n          $result = true\n"
+		return head + "    or:\n" + alt + alt + "      - " + strings.TrimLeft(block("rego", 8), " ") + alt + alt +
+			"      - and:\n          - " + fmt.Sprintf(ok, strings.Repeat(" ", 14), strings.Repeat(" ", 14)) + "          - propertyConstraints:\n              ex.p1:\n                minCount: 0\n"
+	case "or-and-rego":
+		// native alternatives, and a conjunction whose FIRST clause is the offending native constraint
+		alt := "      - rego: |\n          $result = true\n"
+		return head + "    or:\n" + alt + alt + alt + "      - and:\n          - " + strings.TrimLeft(block("rego", 12), " ") + "          - propertyConstraints:\n              ex.p1:\n                minCount: 0\n"
+	case "or-and-rego2", "or-and-rego3":
+		// ... the conjunction holds two native clauses, the offending one first / second
+		alt := "      - rego: |\n          $result = true\n"
+		bad := "          - " + strings.TrimLeft(block("rego", 12), " ")
+		good := "          - rego: |\n              $result = count([1]) == 1\n"
+		pair := bad + good
+		if position == "or-and-rego3" {
+			pair = good + bad
+		}
+		return head + "    or:\n" + alt + alt + alt + "      - and:\n" + pair
+	case "comment-first-path":
+		return head + "    propertyConstraints:\n      ex.p0:\n" + strings.Replace(block("rego", 8), "rego: |\n", "rego: |\n          # checks the upstream service\n", 1)
+	case "comment-first-path-module":
+		return head + "    propertyConstraints:\n      ex.p0:\n" + strings.Replace(block("regoModule", 8), "regoModule: |\n", "regoModule: |\n\n          # checks the upstream service\n", 1)
+	case "comment-first":
+		// the snippet starts with a comment line (and a blank one)
+		return head + strings.Replace(block("rego", 4), "rego: |\n", "rego: |\n      # checks the upstream service\n\n", 1)
 	case "extensions-only":
 		// the helper is defined but never called from a validation
 		return head + "    " + fmt.Sprintf(ok, strings.Repeat(" ", 6), strings.Repeat(" ", 6))
@@ -131,7 +162,7 @@ func embedRego(position, code, helper string) string {
 	panic(position)
 }
 
-var c08Positions = []string{"rego", "regoModule", "code-message", "not", "and", "or", "if", "then", "else", "not-else", "path-rego", "nested", "nested-or", "atLeast", "atMost", "exactly", "warning-level", "second-validation", "helper", "extensions-only"}
+var c08Positions = []string{"rego", "regoModule", "code-message", "not", "and", "or", "if", "then", "else", "not-else", "path-rego", "nested", "nested-or", "atLeast", "atMost", "exactly", "warning-level", "second-validation", "helper", "extensions-only", "and-second-rego", "pc-rego-and-regoModule", "or-many-rego", "comment-first", "or-and-rego", "or-and-rego2", "or-and-rego3", "comment-first-path", "comment-first-path-module"}
 var c08Flaws = map[string]string{
 	"every-as-name": "every := count($node)", "in-as-name": "in = \"x\"", "if-as-name": "if := 1", "contains-as-name": "contains := 2",
 	"syntax-error": "c08_bad ((", "type-error": "c08_t := 1 + \"a\"", "unknown-function": "c08_u := c08_nope(1)", "unsafe-var": "c08_z > 1",
